@@ -29,25 +29,84 @@ var allTargets = []string{
 
 var linkNames = []string{"l1", "l2", "l3"}
 
+// Moves: what happens to the tree BETWEEN the creation of the links and the
+// questions. General lesson: the value of a relative symbolic link is
+// interpreted at the time of every walk, from the directory the link sits in
+// at that time, and an absolute one from the root as it is at that time - a
+// link graph that is created and then only queried cannot tell an
+// implementation that resolves (or caches) a target at creation from one that
+// resolves it during the walk. So the links MOVE before they are followed:
+// the link itself goes to the other directory (same name, other parent), the
+// directory that holds the link (which is also an ancestor of the targets
+// through d) gets another name, something else takes the old name, every
+// ancestor changes at once (the root of the whole tree is renamed), and the
+// there-and-back histories that end in the very place of creation (a cached
+// resolution must be dropped twice). Each move is a fixed sequence of Rename
+// calls applied to both sides after the last Symlink; the kernel's answers on
+// the moved tmpfs tree are the oracle exactly as in the static stages.
+//
+//	link1, link2   Rename(P/lK, P'/lK): P the placement of link K (R or R/d), P' the other one
+//	link1-back     link1, then back to where it was created
+//	dir            Rename(R/d, R/e): links placed in d and targets through d
+//	dir-back       dir, then Rename(R/e, R/d)
+//	swap           Rename(R/d, R/e); Rename(R/dd, R/d): the old name now names another directory (with its own f)
+//	root           Rename(R, R'): R' = sibling "s" of R; queries, cwd and call operands use R', absolute targets keep naming R
+var allMoves = []string{"link1", "link1-back", "link2", "dir", "dir-back", "swap", "root"}
+
+// config is one configuration: the link graph and the move applied to it
+// ("" = none: the links are queried where they were created).
+type config struct {
+	Links []Link `json:"links"`
+	Move  string `json:"move,omitempty"`
+}
+
+func (c config) String() string {
+	s := make([]string, len(c.Links))
+	for i, l := range c.Links {
+		s[i] = l.String()
+	}
+
+	if c.Move != "" {
+		s = append(s, "move="+c.Move)
+	}
+
+	return strings.Join(s, " ")
+}
+
 // space describes the configuration space for a number of links.
 type space struct {
 	nLinks  int
 	targets []string
-	alpha   []string // query component alphabet
+	moves   []string // "" only for the static stages
+	alpha   []string // query component alphabet (without the name a move introduces)
 }
 
 // newSpace: with two links the name l3 does not exist in any tree, so the
 // target "l3" and the query component "l3" are the same class as "nope"
-// (a missing name) and are left out; with three links everything is in.
-func newSpace(nLinks int) *space {
-	s := &space{nLinks: nLinks}
+// (a missing name) and are left out (likewise l2 with one link); with three
+// links everything is in. moved: the configurations are the graphs crossed
+// with every move of allMoves that applies to nLinks links.
+func newSpace(nLinks int, moved bool) *space {
+	s := &space{nLinks: nLinks, moves: []string{""}}
 
 	for _, t := range allTargets {
-		if nLinks < 3 && t == "l3" {
+		if (nLinks < 3 && t == "l3") || (nLinks < 2 && t == "l2") {
 			continue
 		}
 
 		s.targets = append(s.targets, t)
+	}
+
+	if moved {
+		s.moves = nil
+
+		for _, m := range allMoves {
+			if m == "link2" && nLinks < 2 {
+				continue
+			}
+
+			s.moves = append(s.moves, m)
+		}
 	}
 
 	for _, n := range linkNames[:nLinks] {
@@ -62,7 +121,7 @@ func newSpace(nLinks int) *space {
 func (s *space) perLink() int { return 2 * len(s.targets) }
 
 func (s *space) numConfigs() int {
-	n := 1
+	n := len(s.moves)
 	for i := 0; i < s.nLinks; i++ {
 		n *= s.perLink()
 	}
@@ -70,8 +129,12 @@ func (s *space) numConfigs() int {
 	return n
 }
 
-// config decodes configuration index i (mixed radix: link k uses digit k).
-func (s *space) config(i int) []Link {
+// config decodes configuration index i (mixed radix: the move is the lowest
+// digit, link k uses digit k+1).
+func (s *space) config(i int) config {
+	move := s.moves[i%len(s.moves)]
+	i /= len(s.moves)
+
 	out := make([]Link, s.nLinks)
 
 	for k := 0; k < s.nLinks; k++ {
@@ -86,15 +149,27 @@ func (s *space) config(i int) []Link {
 		out[k] = Link{Name: linkNames[k], Place: place, Target: s.targets[c/2]}
 	}
 
-	return out
+	return config{Links: out, Move: move}
+}
+
+// alphaFor is the query alphabet after a move: the name "e" exists only after
+// the moves that make it (anywhere else it is the class of "nope").
+func (s *space) alphaFor(move string) []string {
+	if move == "dir" || move == "swap" {
+		return append(append([]string{}, s.alpha...), "e")
+	}
+
+	return s.alpha
 }
 
 // queries returns every sequence of exactly n components over the alphabet,
 // in lexicographic order of alphabet indices.
-func (s *space) queries(n int) [][]string {
+func (s *space) queries(n int, move string) [][]string {
+	alpha := s.alphaFor(move)
+
 	total := 1
 	for i := 0; i < n; i++ {
-		total *= len(s.alpha)
+		total *= len(alpha)
 	}
 
 	out := make([][]string, 0, total)
@@ -104,8 +179,8 @@ func (s *space) queries(n int) [][]string {
 		x := i
 
 		for k := n - 1; k >= 0; k-- {
-			q[k] = s.alpha[x%len(s.alpha)]
-			x /= len(s.alpha)
+			q[k] = alpha[x%len(alpha)]
+			x /= len(alpha)
 		}
 
 		out = append(out, q)
@@ -148,17 +223,30 @@ var calls = []callSpec{
 // stage is one exhaustively enumerated sub-space: all configurations with
 // nLinks links × all absolute queries with a length in absLens × all calls,
 // plus all relative queries (cwd = R and cwd = R/d) with a length in relLens.
+//
+// Moved: the configurations are the graphs crossed with every move (see
+// allMoves); the questions are asked of the moved tree.
 type stage struct {
 	Name    string
 	NLinks  int
 	AbsLens []int
 	RelLens []int
+	Moved   bool
 }
 
 func (st stage) bound() string {
-	return fmt.Sprintf("%s: all %d-link graphs (placement x target) x absolute queries of length %s x %d calls + relative queries (cwd=R, cwd=R/d) of length %s",
-		st.Name, st.NLinks, lensString(st.AbsLens), len(calls), lensString(st.RelLens))
+	graphs := fmt.Sprintf("all %d-link graphs (placement x target)", st.NLinks)
+
+	if st.Moved {
+		sp := newSpace(st.NLinks, true)
+		graphs += fmt.Sprintf(" x every move applied after the links are made {%s} (query alphabet + e after dir and swap)", strings.Join(sp.moves, ","))
+	}
+
+	return fmt.Sprintf("%s: %s x absolute queries of length %s x %d calls + relative queries (cwd=R, cwd=the directory made as R/d) of length %s",
+		st.Name, graphs, lensString(st.AbsLens), len(calls), lensString(st.RelLens))
 }
+
+func (st stage) space() *space { return newSpace(st.NLinks, st.Moved) }
 
 func lensString(l []int) string {
 	var s []string
@@ -170,12 +258,20 @@ func lensString(l []int) string {
 }
 
 func stagesFor(tier string) []stage {
+	// M: the moved graphs, one link at the query depth of A; thorough adds one
+	// link at the depth of B/E (M4) and two links of which one or none moves (N)
 	if tier != "thorough" {
-		return []stage{{Name: "A", NLinks: 2, AbsLens: []int{1, 2, 3}, RelLens: []int{1, 2}}}
+		return []stage{
+			{Name: "M", NLinks: 1, AbsLens: []int{1, 2, 3}, RelLens: []int{1, 2}, Moved: true},
+			{Name: "A", NLinks: 2, AbsLens: []int{1, 2, 3}, RelLens: []int{1, 2}},
+		}
 	}
 
 	return []stage{
+		{Name: "M", NLinks: 1, AbsLens: []int{1, 2, 3}, RelLens: []int{1, 2}, Moved: true},
 		{Name: "A", NLinks: 2, AbsLens: []int{1, 2, 3}, RelLens: []int{1, 2}},
+		{Name: "N", NLinks: 2, AbsLens: []int{1, 2}, RelLens: []int{1}, Moved: true},
+		{Name: "M4", NLinks: 1, AbsLens: []int{4}, RelLens: []int{3}, Moved: true},
 		{Name: "C", NLinks: 3, AbsLens: []int{1, 2}, RelLens: []int{1}},
 		{Name: "B", NLinks: 2, AbsLens: []int{4}, RelLens: []int{3}},
 		{Name: "D", NLinks: 3, AbsLens: []int{3}, RelLens: []int{2}},
